@@ -4,6 +4,7 @@
 
 package socketace
 
+//@ ghost G_snap_offered() []string
 //@ ghost G_snap_upgrade_header() string
 //@ ghost G_hostonly(s interface{}) bool
 //@ ghost G_istls(c interface{}) bool
@@ -173,6 +174,10 @@ package socketace
 //@   terminates
 //@   pure
 //@   ensures result == "" || memberStr(SupportedProtocolVersions, result)       :only_a_supported_version
+// ... and only one the client offered: an element of the announced list, compared as a whole (a client that
+// offers nothing, an empty element or a mere prefix of a supported version gets no session)
+//@   callsite SplitField#1 (parts []string) assume spec_sameslice(G_snap_offered(), parts) "ghost snapshot: the list of versions the client announced"
+//@   ensures result == "" || memberStr(G_snap_offered(), result)                  :only_a_version_the_client_offered
 //@   loop 1 vars negotiatedVersion string
 //@   loop 1 invariant negotiatedVersion == ""
 //@   loop 2 vars negotiatedVersion string
